@@ -314,7 +314,7 @@ func (cx *Ctx) InstallStdlib2() {
 		return func(fx *FnExec, fr *Frame, call *ssa.CallCommon, args []Value, st *State, site string, k func(*State, Value)) {
 			res := call.Signature().Results()
 			if res.Len() == 1 {
-				k(st, Opaque{name, res.At(0).Type()})
+				k(st, Opaque{Name: name, T: res.At(0).Type()})
 				return
 			}
 			k(st, nil)
@@ -322,7 +322,7 @@ func (cx *Ctx) InstallStdlib2() {
 	}
 	in["time.Date"] = opaqueRet("time.Date")
 	in["time.FixedZone"] = func(fx *FnExec, fr *Frame, call *ssa.CallCommon, args []Value, st *State, site string, k func(*State, Value)) {
-		k(st, Opaque{"time.FixedZone", call.Signature().Results().At(0).Type()})
+		k(st, Opaque{Name: "time.FixedZone", T: call.Signature().Results().At(0).Type()})
 	}
 	rng := func(lo, hi int64) Intrinsic {
 		return func(fx *FnExec, fr *Frame, call *ssa.CallCommon, args []Value, st *State, site string, k func(*State, Value)) {
@@ -391,6 +391,123 @@ func (cx *Ctx) InstallStdlib2() {
 		if !st.Dead {
 			k(st, SliceV{Nil: Not(is16), Obj: ip.Obj, Path: ip.Path, Off: ip.Off, Len: Ite(is16, BV64(16), BV64(0)), Cap: Ite(is16, ip.Cap, BV64(0))})
 		}
+	}
+	// ---- AES (trusted: the primitive is an uninterpreted function) ----
+	in["crypto/aes.NewCipher"] = func(fx *FnExec, fr *Frame, call *ssa.CallCommon, args []Value, st *State, site string, k func(*State, Value)) {
+		key := args[0].(SliceV)
+		okLen := Or(Eq(key.Len, BV64(16)), Eq(key.Len, BV64(24)), Eq(key.Len, BV64(32)))
+		s1 := st.Clone()
+		s1.Assume(Not(okLen))
+		if !s1.Dead {
+			k(s1, TupleV{[]Value{IfaceV{Nil: True}, errV(ErrOther)}})
+		}
+		st.Assume(okLen)
+		if st.Dead {
+			return
+		}
+		if !(key.Len.IsConst() && key.Len.Val == 16) {
+			st.Assume(Eq(key.Len, BV64(16)))
+			fx.Cx.Note("AES with 24/32-octet keys is not modelled (only AES-128 occurs)")
+		}
+		c := fx.sliceContent(st, key)
+		var data []*Term
+		for i := 0; i < 16; i++ {
+			data = append(data, c.Elem(Add(key.Off, BV64(uint64(i)))))
+		}
+		k(st, TupleV{[]Value{IfaceV{Nil: False, V: Opaque{Name: "aes.Block", Data: data}}, errV(ErrNil)}})
+	}
+	in["crypto/cipher.NewCTR"] = func(fx *FnExec, fr *Frame, call *ssa.CallCommon, args []Value, st *State, site string, k func(*State, Value)) {
+		blk, ok := args[0].(IfaceV)
+		if !ok {
+			panic(Unsupported{"cipher.NewCTR on unknown block"})
+		}
+		bo, ok := blk.V.(Opaque)
+		if !ok || len(bo.Data) != 16 {
+			panic(Unsupported{"cipher.NewCTR on unknown block"})
+		}
+		iv := args[1].(SliceV)
+		fx.Oblige(st, site+".lib[NewCTR]", "safety.lib", Eq(iv.Len, BV64(16)), "", "cipher.NewCTR panics unless len(iv) == block size")
+		st.Assume(Eq(iv.Len, BV64(16)))
+		if st.Dead {
+			return
+		}
+		c := fx.sliceContent(st, iv)
+		data := append([]*Term(nil), bo.Data...)
+		for i := 0; i < 16; i++ {
+			data = append(data, c.Elem(Add(iv.Off, BV64(uint64(i)))))
+		}
+		k(st, IfaceV{Nil: False, V: Opaque{Name: "cipher.ctr", Data: data}})
+	}
+	in["invoke:(crypto/cipher.Stream).XORKeyStream"] = func(fx *FnExec, fr *Frame, call *ssa.CallCommon, args []Value, st *State, site string, k func(*State, Value)) {
+		sv, ok := args[0].(IfaceV)
+		if !ok {
+			panic(Unsupported{"XORKeyStream on unknown stream"})
+		}
+		so, ok := sv.V.(Opaque)
+		if !ok || so.Name != "cipher.ctr" {
+			panic(Unsupported{"XORKeyStream on unknown stream"})
+		}
+		dst := args[1].(SliceV)
+		src := args[2].(SliceV)
+		fx.Oblige(st, site+".lib[XORKeyStream]", "safety.lib", ULe(src.Len, dst.Len), "", "XORKeyStream panics if dst is shorter than src")
+		st.Assume(ULe(src.Len, dst.Len))
+		if st.Dead || dst.Obj == nil {
+			if !st.Dead {
+				k(st, nil)
+			}
+			return
+		}
+		sc := fx.sliceContent(st, src)
+		da := fx.arrayOf(st, dst.Obj, dst.Path)
+		data := so.Data
+		ks := CFunc{W: 8, F: func(i *Term) *Term {
+			// i indexes the source slice storage; the keystream position is i - src.Off
+			pos := Sub(i, src.Off)
+			return BXor(sc.Elem(i), App("spec.AESCTR", BV(8), append(append([]*Term(nil), data...), pos)...))
+		}}
+		if fx.OnStore != nil {
+			fx.OnStore(fx, st, dst.Obj, dst.Path, site)
+		}
+		st.Heap[dst.Obj] = fx.writePath(fx.heapGet(st, dst.Obj), dst.Path, ArrV{EW: 8, Len: da.Len, C: CopyC(da.C, dst.Off, ks, src.Off, src.Len)})
+		fx.Cx.Note("a cipher.Stream is used for one XORKeyStream call only (keystream position restarts at 0)")
+		k(st, nil)
+	}
+	in["github.com/aead/cmac.Sum"] = func(fx *FnExec, fr *Frame, call *ssa.CallCommon, args []Value, st *State, site string, k func(*State, Value)) {
+		m := args[0].(SliceV)
+		blk, ok := args[1].(IfaceV)
+		if !ok {
+			panic(Unsupported{"cmac.Sum on unknown block"})
+		}
+		bo, ok := blk.V.(Opaque)
+		if !ok || len(bo.Data) != 16 {
+			panic(Unsupported{"cmac.Sum on unknown block"})
+		}
+		ts := args[2].(Scalar).T
+		if !ts.IsConst() || ts.Val != 16 {
+			panic(Unsupported{"cmac.Sum with tag size other than 16"})
+		}
+		// the message must have the shape prefix(8 octets) || payload (as NIA2 builds it)
+		if m.Obj == nil || !(m.Off.IsConst() && m.Off.Val == 0) {
+			panic(Unsupported{"cmac.Sum on a message that is not prefix||payload"})
+		}
+		cc, ok := fx.sliceContent(st, m).(*CCopy)
+		if !ok || !(cc.DOff.IsConst() && cc.DOff.Val == 8) {
+			panic(Unsupported{"cmac.Sum on a message that is not prefix||payload"})
+		}
+		fx.Oblige(st, site+".lib[cmac]", "safety.lib", Eq(m.Len, Add(BV64(8), cc.N)), "", "message is exactly prefix || payload")
+		uf := append([]*Term(nil), bo.Data...)
+		for i := 0; i < 8; i++ {
+			uf = append(uf, cc.B.Elem(BV64(uint64(i))))
+		}
+		uf = append(uf, contentArray(cc.Src), cc.SOff, cc.N)
+		e := make([]*Term, 16)
+		for j := range e {
+			e[j] = App("spec.EIA2", BV(8), append(append([]*Term(nil), uf...), BV64(uint64(j)))...)
+		}
+		o := fx.Cx.NewObj("cmac.Sum", types.NewSlice(types.Typ[types.Uint8]), ProvFresh)
+		st.Heap[o] = ArrV{EW: 8, Len: BV64(16), C: CVec{E: e, W: 8}}
+		fx.AddAlloc(st, BV64(16))
+		k(st, TupleV{[]Value{SliceV{Nil: False, Obj: o, Off: BV64(0), Len: BV64(16), Cap: BV64(16)}, errV(ErrNil)}})
 	}
 	_ = fmt.Sprintf
 }
